@@ -54,6 +54,28 @@ def bodies(crate):
     return _cache[crate][0]
 
 
+def mir_consts(crate):
+    """integer / bool constants defined in the MIR dump itself (e.g. `BRANCHES` of a tokio::select! expansion): {last path segment: (value, type)}"""
+    bodies(crate)
+    txt = open(_cache[crate][3]).read()
+    out, seen = {}, {}
+    for m in re.finditer(r"^const ([^\n=]+?): (bool|[iu](?:8|16|32|64|128|size)) = \{\n(.*?)^\}", txt, re.S | re.M):
+        mm = re.search(r"_0 = const (-?\d+)_[iu]\w+;|_0 = const (true|false);", m.group(3))
+        if not mm:
+            continue
+        val = int(mm.group(1)) if mm.group(1) is not None else (1 if mm.group(2) == "true" else 0)
+        key = m.group(1).strip().split("::")[-1]
+        seen.setdefault(key, set()).add(val)
+        out[key] = (val, m.group(2))
+    for m in re.finditer(r"^const ([^\n=]+?): (bool|[iu](?:8|16|32|64|128|size)) = const (-?\d+|true|false)(?:_[iu]\w+)?;", txt, re.M):
+        v = m.group(3)
+        val = (1 if v == "true" else 0) if v in ("true", "false") else int(v)
+        key = m.group(1).strip().split("::")[-1]
+        seen.setdefault(key, set()).add(val)
+        out[key] = (val, m.group(2))
+    return {k: v for k, v in out.items() if len(seen[k]) == 1}
+
+
 def find_body(bods, pattern, nth=0, all_=False):
     """pattern: regex searched in the body's header line (which holds name and signature). CTFE duplicates (#2) skipped."""
     hits = [b for n, b in bods.items() if re.search(pattern, b.header)]
